@@ -276,7 +276,7 @@ func prepareBatch(ctx *Ctx, res *Result, in *Input, variants []wl.Variant, epi i
 			lay = in.LayoutSeed + uint64(si)
 		}
 		for vi, v := range variants {
-			name := fmt.Sprintf("p%d_%d_%d", pbCounter, si, vi)
+			name := fmt.Sprintf("p%d_%d_%d", in.Index, si, vi)
 			var layR *rng.R
 			if lay != 0 {
 				layR = rng.New(lay, "layout")
@@ -326,7 +326,7 @@ func prepareBatch(ctx *Ctx, res *Result, in *Input, variants []wl.Variant, epi i
 		}
 		pb.Go = b
 		for _, sc := range pb.Specs {
-			for _, u := range sc.Units {
+			for _, u := range sc.sortedUnits() {
 				if e, bad := b.CompErrs[u.Name]; bad {
 					u.CompErr = e
 					if d := os.Getenv("VERIF_DEBUG_DIR"); d != "" {
@@ -390,6 +390,7 @@ func (pb *parserBatch) runParsesB(ctx *Ctx, res *Result, trace bool, budget int)
 			out[rs[i].Parser] = rs[i].Parses
 			meta[rs[i].Parser] = &rs[i]
 			res.Count("parses", len(rs[i].Parses))
+			res.LogHash = hkey(res.LogHash, jsonStr(rs[i]))
 		}
 	}
 	if len(tsJobs) > 0 {
@@ -404,7 +405,7 @@ func (pb *parserBatch) runParsesB(ctx *Ctx, res *Result, trace bool, budget int)
 			if rs[i].Err != "" {
 				// load failure: recorded on the unit
 				for _, sc := range pb.Specs {
-					for _, u := range sc.Units {
+					for _, u := range sc.sortedUnits() {
 						if u.Name == rs[i].Parser {
 							u.CompErr = rs[i].Err
 						}
@@ -416,6 +417,7 @@ func (pb *parserBatch) runParsesB(ctx *Ctx, res *Result, trace bool, budget int)
 			meta[rs[i].Parser] = &rs[i]
 			res.Count("parses", len(rs[i].Parses))
 			res.Count("parses_typescript", len(rs[i].Parses))
+			res.LogHash = hkey(res.LogHash, jsonStr(rs[i]))
 		}
 	}
 	return out, meta, true
@@ -498,4 +500,19 @@ func grammarsForParsers(ctx *Ctx, r *rng.R, n int, wantConflictFree bool) []*wl.
 
 func engbRunTS(ctx *Ctx, pb *parserBatch, jobs []engbrt.Job) ([]engbrt.JobResult, error) {
 	return engb.RunTS(verifDir(ctx), ctx.Scratch, pb.TSFiles, jobs)
+}
+
+// sortedUnits returns the units of a grammar in a fixed order (never range over the map: the harness must not
+// smuggle Go's map order into job order, logs or verdict order).
+func (sc *specCtx) sortedUnits() []*genUnit {
+	var names []string
+	for vn := range sc.Units {
+		names = append(names, vn)
+	}
+	sort.Strings(names)
+	out := make([]*genUnit, 0, len(names))
+	for _, vn := range names {
+		out = append(out, sc.Units[vn])
+	}
+	return out
 }
